@@ -7,6 +7,7 @@ mod specio;
 mod extract;
 mod c19;
 mod c20;
+mod totality;
 mod cratecheck;
 mod compileprops;
 mod fsprops;
@@ -67,7 +68,7 @@ fn main() {
         "C19" => c19::run(&tier, seed, &out),
         "C20" => c20::run(&tier, seed, &out),
         "C05" | "C06" | "C07" | "C08" | "C14" | "C15" | "C17" => hirprops::run(&prop, &tier, seed, &out),
-        "C18" | "C04" | "C03" | "C02" => emitprops::run(&prop, &tier, seed, &out),
+        "C18" | "C04" | "C03" | "C02" | "C16" => emitprops::run(&prop, &tier, seed, &out),
         "K02" => compileprops::run_k02(&tier, seed, &out),
         "K16" => compileprops::run_k16(&tier, seed, &out),
         // the emitted-crate stage of properties whose first stage is on the HIR: `lnv E05 ..` etc.
